@@ -160,6 +160,40 @@ def print_assumptions(out: str) -> list[str]:
     return res
 
 
+def props_assumptions(pid: str) -> list[str]:
+    """Re-run coqc on Props/<pid>.v and return its Print Assumptions answers."""
+    r = subprocess.run(['coqc', '-q', '-Q', str(COQ / 'theories'), 'PT', '-Q', str(COQ / 'Props'), 'PTProps',
+                        str(COQ / 'Props' / f'{pid}.v')], capture_output=True, text=True, cwd=str(COQ))
+    if r.returncode:
+        raise MachineryError(f'Props/{pid}.v does not compile:\n' + (r.stdout + r.stderr)[-3000:])
+    return print_assumptions(r.stdout)
+
+
+def coq_eval_cases(pid: str, header: str, exprs: list[str], *, shard: int = 400,
+                   name: str = 'Cases', timeout: int = 600) -> list[str]:
+    """Evaluate Gallina expressions with vm_compute (one answer per expression), sharded over
+    coqc processes.  Returns the printed answers in order."""
+    from concurrent.futures import ThreadPoolExecutor
+    g = gen_dir(pid)
+    shards = [exprs[i:i + shard] for i in range(0, len(exprs), shard)]
+    paths = []
+    for k, sh in enumerate(shards):
+        pth = g / f'{name}{k}.v'
+        pth.write_text(header + '\n' + '\n'.join(f'Eval vm_compute in ({e}).' for e in sh) + '\n')
+        paths.append(pth)
+    res: list[str] = []
+    with ThreadPoolExecutor(max_workers=max(1, NCPU // 2)) as ex:
+        outs = list(ex.map(lambda q: coqc(q, timeout=timeout), paths))
+    for (rc, out), sh, pth in zip(outs, shards, paths):
+        if rc:
+            raise MachineryError(f'{pth} does not compile:\n' + out[-3000:])
+        ans = coq_eval_lines(out)
+        if len(ans) != len(sh):
+            raise MachineryError(f'{pth}: {len(ans)} answers for {len(sh)} expressions')
+        res.extend(ans)
+    return res
+
+
 # --------------------------------------------------------------------------
 # Verdict bookkeeping
 
